@@ -68,7 +68,7 @@ pub fn all() -> Vec<PropDef> {
             "existential oracle decided by search with the real parser: the completion set is every tail of a few complete messages (about 50 per kind), valid UTF-8 continuations of a truncated sequence, and depth-2 concatenations; a completable Partial that none of these completes would be a false alarm (none met on the unchanged tree over many seeds)",
             "the stated exception (request target with a definitely invalid UTF-8 sequence, deferred to its terminating SP) is recognised with the reference model and excluded (counted); capacity is set to lines+8 so the other exception cannot arise",
         ], rule: "every Partial in the prefix closure of G1 bases (default- and lenient-weighted, all kinds/configs/entry points), 256 byte values at every position of 8 bases, bounded-exhaustive start-line token strings, header strings x 10 option/kind combos and chunk-size strings. Oracle: exists suffix s in the completion set with parse(buffer+s) = Complete. Non-trivial = a Partial of >= 4 bytes whose witness is longer than a bare terminator; distinct by hash of (entry,cfg,base buffer)" },
-        PropDef { id: "C12", run: p_scan::run, check: p_scan::check, max_buf: 4096, assumptions: &[
+        PropDef { id: "C12", run: p_scan::run, check: p_scan::check, max_buf: 8192, assumptions: &[
             "NEON is checked through a source transformation of the current neon.rs compiled against a scalar emulation of the aarch64 intrinsics (vlib/src/neon_emu.rs, transcribed from the Arm reference), not on hardware",
             "word size 8 (x86-64) only for the SWAR backend",
             "SSE4.2 / AVX2 backends are run only if the host CPU has them (it does: see notes)",
@@ -94,7 +94,7 @@ pub fn all() -> Vec<PropDef> {
         PropDef { id: "C20", run: p_res::run_c20, check: p_res::check_c20, max_buf: (1 << 20) + 8192, assumptions: &[
             "work is observed through hook H3 (per-thread counters in src/iter.rs); re-scans that bypass the cursor abstraction are only seen by the thorough tier's cachegrind instruction-count scaling",
             "the bounds are constants derived from the statement (travel <= len, block peeks <= len + 16, other primitives <= 8*len + 64); measured maxima on this tree are in coverage.runs[].maxima",
-        ], rule: "37 adversarial parametric families (folded lines, ignored lines, whitespace runs, near-miss SIMD blocks, many minimal headers, long fields, late errors, ...) at sizes 1 KiB..1 MiB x {whole, truncated at a random point, late error, size jitter} under each runtime backend; 8 KiB values with HTAB/SP/obs-text at every period 1..=40; G1 lenient-weighted messages. Oracle A (hook H3 counters per call): exactly one cursor created, no backward cursor move, cursor travel <= len and == n on Complete(n), block peeks <= len + 16 (covering <= 8*(len+16)+64 bytes), every other primitive <= 8*len + 64. Oracle B (no hooks, sees work that bypasses the cursor): for every family, instruction counts of the production vdigest build under valgrind --tool=cachegrind at N and 4N (cost = I(3 repeats) - I(1 repeat), deterministic) must satisfy cost(4N) <= 8*cost(N) + 60000 (linear = x4, quadratic = x16). Non-trivial = len >= 4 KiB and >= 90% of the buffer consumed; distinct by hash of (entry,cfg,backend,buffer)" },
+        ], rule: "40 adversarial parametric families (folded lines, ignored lines, whitespace runs, near-miss SIMD blocks, many minimal headers, long fields, late errors, ...) at sizes 1 KiB..1 MiB x {whole, truncated at a random point, late error, size jitter} under each runtime backend; 8 KiB values with HTAB/SP/obs-text at every period 1..=40; G1 lenient-weighted messages. Oracle A (hook H3 counters per call): exactly one cursor created, no backward cursor move, cursor travel <= len and == n on Complete(n), block peeks <= len + 16 (covering <= 8*(len+16)+64 bytes), every other primitive <= 8*len + 64. Oracle B (no hooks, sees work that bypasses the cursor): for every family, instruction counts of the production vdigest build under valgrind --tool=cachegrind at N and 4N (cost = I(3 repeats) - I(1 repeat), deterministic) must satisfy cost(4N) <= 8*cost(N) + 60000 (linear = x4, quadratic = x16). Non-trivial = len >= 4 KiB and >= 90% of the buffer consumed; distinct by hash of (entry,cfg,backend,buffer)" },
     ]
 }
 
